@@ -287,6 +287,15 @@ func (f *RunningEventFilter) onReorg(writer db.KeyValueWriter) error {
 		if err != nil {
 			return err
 		}
+		// The previous window becomes the running window again and is no longer complete:
+		// its persisted copy must go, otherwise a start without snapshot takes it for a
+		// finished window and opens the running filter one window too far.
+		if err := DeleteAggregatedBloomFilter(writer, rangeStartAligned, rangeEndAligned); err != nil {
+			return fmt.Errorf(
+				"deleting persisted filter of reopened window [%d,%d]: %w",
+				rangeStartAligned, rangeEndAligned, err,
+			)
+		}
 		f.inner = &lastStoredFilter
 	}
 
